@@ -83,7 +83,7 @@ def pipeline(case, work, workers=None):
             p = work / (f"in{i}.pin" if fmt == "pin" else f"in{i}.parquet")
             dsets.append(make_dataset(df, p, features=["f_key", "f2"], spectrum=spec, row_group_size=cfg.get("rg")))
         w = workers or cfg.get("workers", 1)
-        psms, models, scores, descs = mokapot.brew(dsets, model=make_model("linear", first_only=True), test_fdr=0.5,
+        psms, models, scores, descs = mokapot.brew(dsets, model=make_model(case.get("est", "linear"), first_only=True), test_fdr=0.5,
                                                    folds=3, max_workers=w, rng=1)
         out = work / "out"
         out.mkdir(exist_ok=True)
@@ -146,9 +146,9 @@ _REF = {}
 
 
 def reference(case, work):
-    key = (repr(case["data"]), case.get("dedup", True))
+    key = (repr(case["data"]), case.get("dedup", True), case.get("est", "linear"))
     if key not in _REF:
-        r = pipeline({"data": case["data"], "dedup": case.get("dedup", True), "config": {}}, work)
+        r = pipeline({"data": case["data"], "dedup": case.get("dedup", True), "est": case.get("est", "linear"), "config": {}}, work)
         # harness sanity: a degenerate reference (untrained model, NaN scores from a fold without decoys) would make
         # the differential oracle vacuous
         if not r["trained"] or any(not np.all(np.isfinite(s)) for s in r["scores"]):
@@ -381,6 +381,14 @@ def make_cases(ctx):
                         if "rg" in cfg:
                             cfg["fmt"] = "parquet"
                         cases.append(dict(base, config=cfg))
+    # estimator without a decision function (scores are not calibrated; another code path in prediction)
+    for data in ("A", "B"):
+        n = n_rows(data)
+        for v in range(1, n + 2):
+            cases.append({"data": data, "dedup": True, "est": "proba", "config": {"CHUNK_SIZE_ROWS_PREDICTION": v}})
+        for c in ("CONFIDENCE_CHUNK_SIZE", "CHUNK_SIZE_READ_ALL_DATA"):
+            for v in (1, 3, n):
+                cases.append({"data": data, "dedup": True, "est": "proba", "config": {c: v}})
     # joint run of two files
     nj = n_rows("A") + n_rows("B")
     for c in BREW_CONSTS:
